@@ -99,7 +99,7 @@ class Sched:
             return None     # unmanaged thread (e.g. the pytest main thread during set-up): run straight through
         if self.aborting:
             raise Abort()
-        if self.yield_filter is not None and not self.yield_filter(label):
+        if self.yield_filter is not None and enabled is None and wake is None and not self.yield_filter(label):
             return None
         st.pending = (label, enabled, wake)
         self.main_sem.release()
@@ -146,13 +146,13 @@ class Sched:
             if choice == "clock":
                 self.now = min(t.pending[2] for t in sl)
                 if self.trace is not None:
-                    self.trace.append(["clock", "advance", self.now, []])
+                    self.trace.append(["clock", "advance", self.now, [], self.now])
                 continue
             st = choice
             self.steps += 1
             st.steps += 1
             if self.trace is not None:
-                self.trace.append([st.name, st.pending[0], None, sorted(t.name for t in en)])
+                self.trace.append([st.name, st.pending[0], None, sorted(t.name for t in en), self.now])
             st.sem.release()
             self.main_sem.acquire()
             for m in self.monitors:
@@ -423,6 +423,35 @@ class DThread:
                 s.yield_point("thread.join")
 
 
+class DLock:
+    """threading.Lock replacement: "blocked on the lock" is a scheduler state"""
+
+    def __init__(self):
+        self._owner = None
+
+    def acquire(self, blocking=True, timeout=-1):
+        s = cur()
+        if s is not None:
+            s.yield_point(_label(self, "acquire"), (lambda: self._owner is None) if blocking else None)
+        if self._owner is not None:
+            return False
+        self._owner = (s.me() if s else None) or True
+        return True
+
+    def release(self):
+        self._owner = None
+
+    def locked(self):
+        return self._owner is not None
+
+    def __enter__(self):
+        self.acquire()
+        return self
+
+    def __exit__(self, *a):
+        self.release()
+
+
 class DTime:
     """`time` module stand-in: sleep on the virtual clock"""
 
@@ -461,6 +490,9 @@ class Installed:
         for k in ("Thread", "Queue", "PriorityQueue", "deque", "ThreadEvent", "FiberThreadEvent", "time",
                   "ActiveFabric", "InstrumentionWriter"):
             self.saved[k] = getattr(ao, k)
+        if hasattr(ao, "Lock"):
+            self.saved["Lock"] = ao.Lock
+            ao.Lock = DLock
         ao.Thread = DThread
         ao.Queue = DQueue
         ao.PriorityQueue = DPriorityQueue
